@@ -13,7 +13,7 @@ OPTS = {'quick': {'selfcheck_mod': 100, 'budget_s': 280}, 'thorough': {'selfchec
 STEP_LIMIT = 1_500_000
 BOUNDS = {
     'quick': 'every 3rd program of the C01, C02, C03 and C04 families (conjunctions, disjunctions, cut, not, output goals): the search is run to its first "no more answers" (at most 8 '
-             'answers), then next_solution is called three more times on the same query; every call must report none and write nothing; a sample is also driven through solve(): '
+             'answers), then next_solution is called three more times on the same query; every call must report none and write nothing; 21 programs with time(G) (whose elapsed-time output is the only thing checked: none after exhaustion); a sample is also driven through solve(): '
              'after "No more." two further calls must return "No more."',
     'thorough': 'every program of those families',
 }
@@ -32,10 +32,37 @@ def cases(tier, seed):
             h = int(hashlib.sha1(('%s|%s|%d' % (fam, c['id'].split('|')[0], seed)).encode()).hexdigest()[:8], 16)
             if h % step == 0:
                 c = dict(c); c['src'] = fam; c['solve'] = (h // step) % 7 == 0; out.append(c)
+    # time(G) writes the elapsed time when G has been run: it must stay quiet after exhaustion like everything else
+    tm = lambda g: ('gtime', (g,))
+    for body in (tm(gc('p', X)), tm(gb('fail')), AND(gc('p', X), tm(gc('q', X))), AND(tm(gc('nosuch', X)), gc('p', X)), OR(tm(gb('fail')), gc('q', X)),
+                 AND(gc('q', X), tm(gb('equal', X, A('zz')))), OR(gc('p', X), AND(tm(gc('nosuch', X)), gc('q', X)))):
+        for q in (C('t', X), C('t', A('b')), C('t', A('zz'))):
+            cl = [(C('t', X), body)]
+            out.append({'id': 'time: %s ?- %s|%d' % (P.gtext(body), P.ttext(q), len(out)), 'fam': 'time', 'src': 'time', 'solve': False,
+                        'clauses': PC.jsonable(tuple(cl)), 'query': PC.jsonable(q)})
     return out
 
 
+def run_time(drv, case):
+    """no reference needed: run to the first None (at most 8 answers), then three more requests must give nothing and write nothing"""
+    m = drv.m
+    cs = {'clauses': PC.untuple(case['clauses']), 'query': PC.untuple(case['query'])}
+    clauses, query = PC.program(m, cs)
+    kb = P.build_kb(drv, clauses)
+    try:
+        run = P.impl_search(drv, kb, query, 8, reask=3)
+    except ScenarioEnd as e:
+        raise Violation('search-%s' % e.why[0], '%s: %s' % (case['id'], e.why[1][:200]))
+    if not run.exhausted: return {'tags': ['not-exhausted-within-bound'], 'nontrivial': False}
+    for i, (ans, out) in enumerate(run.after):
+        if ans or out:
+            raise Violation('answers-after-exhaustion:time', '%s: request %d after the search reported no more answers %s%s' % (
+                case['id'], i + 1, 'gives an answer' if ans else 'gives none', (' and writes %r' % out) if out else ''))
+    return {'tags': ['re-asked', 'time-goal'], 'note': case['id']}
+
+
 def run(drv, case):
+    if case.get('fam') == 'time': return run_time(drv, case)
     m = drv.m
     cs = {'clauses': PC.untuple(case['clauses']), 'query': PC.untuple(case['query'])}
     clauses, query = PC.program(m, cs)
